@@ -56,6 +56,29 @@ def _gave_up(src, line, col):
     return hits[0] if hits else ('stmt-recursion' if guard else None)
 
 
+def _operand_limit(src, line, col):
+    """re-runs one inference watching syntax_tree._infer_comparison: True when some binary operation
+    met more than six (left, right) value pairs - there jedi answers with the union of both operand
+    sets instead of executing the magic method (no debug message is emitted on that path)"""
+    import jedi
+    from jedi.inference import syntax_tree as st
+    hit = []
+    orig = st._infer_comparison
+
+    def watch(context, left_values, operator, right_values):
+        if left_values and right_values and len(left_values) * len(right_values) > 6:
+            hit.append(1)
+        return orig(context, left_values, operator, right_values)
+    st._infer_comparison = watch
+    try:
+        jedi.Script(src).infer(line, col)
+    except Exception:
+        pass
+    finally:
+        st._infer_comparison = orig
+    return bool(hit)
+
+
 def analyse_source(src, info=None):
     """runs one program and infers at every probe the run reached"""
     from gen import flowprog as F
@@ -68,13 +91,15 @@ def analyse_source(src, info=None):
         if not rt:
             continue
         rec = {'line': line, 'column': col, 'runtime': rt, 'jedi': None, 'raised': None,
-               'exact': exact.get(str(line)), 'gave_up': None}
+               'exact': exact.get(str(line)), 'gave_up': None, 'operand_limit': False}
         try:
             rec['jedi'] = _infer(src, line, col)
         except Exception as e:
             rec['raised'] = '%s@%s' % common.exc_site(e)
         if rec['jedi'] is not None and verdict(rec) is not None:
             rec['gave_up'] = _gave_up(src, line, col)
+            if verdict(rec)[2] == 'not-exact' and not rec['gave_up']:
+                rec['operand_limit'] = _operand_limit(src, line, col)
         recs.append(rec)
     return {'src': src, 'err': err, 'probes': recs, 'selfnest': bool(info.get('selfnest')),
             'finding_shape': info.get('finding_shape')}
@@ -335,6 +360,10 @@ def judge(ctx, res, origin, count=True):
             shape = 'flow:callable-applied-to-its-own-result'
         elif res.get('finding_shape'):
             shape = res['finding_shape']      # corpus reproducer of a known finding
+        elif kind == 'not-exact' and rec.get('operand_limit') and \
+                all(r in rec['jedi'] for r in rec['runtime'] if r[0] in ('instance', 'class')):
+            # a binary operation with more than six operand pairs on the way: union of the operands
+            shape = 'flow:operator-beyond-six-operand-pairs'
         else:
             shape = 'flow:' + shape_of(src, rec['line'], kind)
         case = {'source': src, 'line': rec['line'], 'column': rec['column'], 'shape': shape, 'origin': origin}
